@@ -175,19 +175,19 @@ Proof. exact load_database_spec. Qed.
 Print Assumptions C13_database.
 
 (* ---- "only files named by entries, and what they include, are attributed" ---- *)
-(* PARTIAL.  Composition with C04's multi-file model of the finder: for every
-   entry load_database returns (which is S's resolution of a database entry),
-   whatever the finder's model attributes to the platform when run on that entry
-   (file, include directories as returned; any -D set and any -include names)
-   belongs to a file REACHABLE from the entry: the entry's file, a -include
-   target, or an answer of the header search (includer's directory, then the
-   entry's include directories) issued from a file already reached.
-   Missing for the full statement: it is proved for translation units made of
-   structured files that the reference preprocessor of Spec/C04.v accepts (no
-   diagnosed redefinition / parse error, enough include depth) - this is the
-   hypothesis of C04_inclusion; and [reach] over-approximates "what they
-   include" (it does not ask that the directive be present in the file). *)
-Theorem C13_only_named_files_partial :
+(* Composition with C04's multi-file model of the finder.  For every entry
+   load_database returns (it is S's resolution of a database entry, by
+   C13_database) and EVERY successful run of the finder's model on it (file and
+   include directories as returned; any -D set, any -include names, any include
+   depth), every (file, node) attributed to the platform lies in a file
+   REACHABLE from the entry: the entry's file, a -include target, or the answer
+   of the header search (includer's directory unless angle form, then the
+   entry's include directories in order) for an #include directive that is a
+   line of a file already reached.
+   Hypotheses: the files are structured (conditionals nest - what gcc accepts);
+   the database is one S is defined on.  The finder's model is tied to
+   finder.find by C04's correspondence, not by this check. *)
+Theorem C13_only_named_files :
   forall fs cwd rootdir, wf_fs fs -> isabs cwd = true ->
   forall es outs,
     s_db fs (resolve (cwdloc cwd) rootdir) es = Some outs ->
@@ -196,12 +196,11 @@ Theorem C13_only_named_files_partial :
         In (denote_entry x) (opens outs) /\
         forall (fs4 : Model.C04.fsys) fuel defs forced r,
           Spec.C04.fs_structured fs4 ->
-          Spec.C04.run_tu_S fs4 fuel (tu_of x defs forced) = Ok r ->
-          exists r', Model.C04.run_tu_M fs4 fuel (tu_of x defs forced) = Ok r' /\
-            forall g id, In (g, id) (Model.C04.assoc r') ->
-                         Proofs.C13c.reach fs4 (tu_of x defs forced) g.
+          Model.C04.run_tu_M fs4 fuel (tu_of x defs forced) = Ok r ->
+          forall g id, In (g, id) (Model.C04.assoc r) ->
+                       Proofs.C13c.reach fs4 (tu_of x defs forced) g.
 Proof. exact only_named_files_full. Qed.
-Print Assumptions C13_only_named_files_partial.
+Print Assumptions C13_only_named_files.
 
 (* non-vacuity: a relative `directory` with a '..' in the file and a relative -I *)
 Example C13_nonvacuous :
@@ -243,7 +242,7 @@ Proof.
   exists (s "a.o"), [s "gcc"; s "a.o"]. repeat split.
 Qed.
 
-(* non-vacuity of C13_only_named_files_partial: the entry of C13_nonvacuous_db fed to
+(* non-vacuity of C13_only_named_files: the entry of C13_nonvacuous_db fed to
    the finder's model on a two-file tree: a.c includes <h.h>, found in build/inc *)
 Definition ex_fs4 : Model.C04.fsys :=
   [ (["w"; "root"; "src"; "a.c"]%string,
@@ -253,7 +252,7 @@ Definition ex_fs4 : Model.C04.fsys :=
 Example C13_nonvacuous_closure :
   let x := {| o_file := s "/w/root/src/a.c"; o_incs := [s "/w/root/build/inc"] |} in
   Spec.C04.fs_structured ex_fs4 /\
-  match Spec.C04.run_tu_S ex_fs4 3 (tu_of x [] []) with
+  match Model.C04.run_tu_M ex_fs4 3 (tu_of x [] []) with
   | Ok r => map fst (Model.C04.assoc r)
   | Err _ => []
   end = [["w"; "root"; "src"; "a.c"]; ["w"; "root"; "build"; "inc"; "h.h"]; ["w"; "root"; "src"; "a.c"]]%string.
